@@ -557,6 +557,9 @@ static void generate_tuple_typedef(StringBuilder *sb, TypeInfo *info, const char
             if (info->tuple_type_names && info->tuple_type_names[i]) {
                 const char *prefixed = get_prefixed_type_name(info->tuple_type_names[i]);
                 sb_appendf(sb, "%s _%d", prefixed, i);
+            } else if (t == TYPE_ENUM) {
+                /* an enum value without a recorded enum name is held as the int it is */
+                sb_appendf(sb, "int64_t _%d", i);
             } else {
                 sb_appendf(sb, "void* /* tuple composite */ _%d", i);
             }
